@@ -21,6 +21,18 @@ CLAIMS = {
    text="TLC checks AckedIntegrity, AtMostThree, RetryOnlyIfReplayable and handler release for all interleavings of stale reader, new reader, serialiser and poster in the bounded model (and the refinement Upload => UploadObs); TLC enumerates all fault scripts (kind x position x attempt), a seeded sample x response sizes around the 4096-byte buffer is run against utils.NewResponseForwarder with a real http.Client, and every recorded run (hooks Attempt/AttemptStatus/BrsRead/BrsSeek + what the endpoint received) must be a behaviour of UploadObs.",
    note="Trusted: TLC, fault server, reference serialisation from a fault-free run of the same handler script. Which transport goroutine takes the next pipe piece is left to the Go scheduler (not gated). What Close() returns is not judged (not part of the statement). One known finding (stale body reader), see known_findings.txt.",
    design="6 C06"),
+ "C02": dict(engine="HttpMsg", technique="TLA+ spec HttpMsg (reference semantics ReqOK + stage-by-stage pipeline model checked by TLC with deviation switches) + class domains exported by TLC, concretised and run through the real proxy+agent with raw TCP ends + TLC trace validation (HttpMsgTrace) of every (sent, received) pair",
+   text="TLC checks that the composition of the pipeline stages meets the reference semantics for every abstract message; on the real code an each-class sweep plus seeded random class combinations (method x path x query x host x headers x body; 150 quick / 1500 thorough) are sent byte-exactly by a raw client and whatever the raw backend receives is judged by the TLA+ operator ReqOK.",
+   note="Trusted: TLC, the harness' abstraction of raw bytes into (method, target, host, header pairs, body digest). Input classes are finite; sizes up to 1 MiB (8 MiB thorough). Default handler chain only.",
+   design="6 C02"),
+ "C03": dict(engine="HttpMsg", technique="TLA+ spec HttpMsg (reference semantics RespOK; pipeline model with JoinedTrailerNames / LatchInterim attacks) + TLC-exported class domains concretised as byte-exact scripted backend responses through the real agent+proxy + TLC trace validation (HttpMsgTrace)",
+   text="Every class of status, request method, header set, framing, body segmentation, declared/undeclared trailers and interim 1xx responses is exercised (sweep + seeded combinations, 268 quick / 2000+ thorough); the response parsed by a raw client is judged by the TLA+ operator RespOK; thorough tier repeats under the race detector.",
+   note="Trusted: TLC, the harness' abstraction of responses. h2c backends are not covered yet. Header name case, Date and framing headers are not compared.",
+   design="6 C03"),
+ "C09": dict(engine="HttpMsg", technique="TLA+ spec HttpMsg (IdentityOK / CredsOK; pipeline model with IdentityAdd attack) + exhaustive class product run against the real agent binary behind a scripted fake proxy, with a recording HTTP + websocket backend + TLC trace validation",
+   text="All combinations of forward-user-id x strip-credentials x shim x sessions x forged identity header class x Authorization class x request kind (GET, POST, websocket-shim open) are executed (840 quick / 1440 thorough); what the backend saw is judged by IdentityOK / CredsOK in TLA+.",
+   note="Trusted: TLC, fake proxy (asserts a fresh random identity per request), recording backend.",
+   design="6 C09"),
  "C01": dict(engine="Relay", technique="TLA+ spec Relay checked by TLC (exhaustive interleavings, liveness, IdCollision attack) + TLC trace validation (RelayTrace) of recorded executions of the real proxy/agent binaries, incl. -race builds",
    text="Bounded-exhaustive model checking of the proxy/agent relay design (all interleavings of 3 requests, 2-3 pollers, faults) plus conformance: every hook/observable event of bursts of up to 64 concurrent clients through the real binaries must be a behaviour of the specification, with the correlation invariants evaluated at every step.",
    note="Trusted: TLC, the token projection of the harness backend/clients, hook placement (receiver side of channel rendezvous). Bounds: 3 requests in the model, <=64 concurrent clients per burst in the runs. Race-detector reports count only with both stacks in repository code.",
